@@ -160,8 +160,13 @@ async def _client_life(api_type: str, acts: List[str]) -> str:
     target = {"port": dev.port}
     real_open = asyncio.open_connection
 
+    transports = []     # the transport of every client-side stream this run has opened (not the StreamWriter: an overwritten writer
+                        # must stay collectable)
+
     async def redirected(host=None, port=None, family=None, **kw):
-        return await real_open(host="127.0.0.1", port=target["port"], family=family)
+        r, w = await real_open(host="127.0.0.1", port=target["port"], family=family)
+        transports.append(w.transport)
+        return r, w
     saved = A.open_connection
     A.open_connection = redirected
     cls = A.SwitcherType2Api if api_type == "type2" else A.SwitcherType1Api
@@ -205,14 +210,16 @@ async def _client_life(api_type: str, acts: List[str]) -> str:
                 res = "raise_OSError"
             except Exception as e:  # noqa
                 res = "raise_" + C.exc_name(e)
-            # what the device sees: let FIN / accept propagate
-            seen, same = None, 0
-            for _ in range(400):
+            # what the device sees.  The number of client-side streams that are not closed says what it WILL see once the accept /
+            # the end-of-stream has travelled through the loop: wait for that (up to 2 s, so that a loaded machine cannot make the
+            # observation early), then report the device's own count whatever it is.
+            want = sum(1 for t in transports if not t.is_closing())
+            for _ in range(4000):
                 await asyncio.sleep(0.0005)
-                same = same + 1 if seen == dev.open else 0
-                seen = dev.open
-                if same >= 3:
+                if dev.open == want:
                     break
+                want = sum(1 for t in transports if not t.is_closing())
+            await asyncio.sleep(0.001)
             out.append(f"{res}:{int(api.connected)}:{dev.open}")
     finally:
         A.open_connection = saved
